@@ -499,6 +499,7 @@ func subReset() mon.Sub {
 			cfg := cfgOf(c.Rng.Intn(nCfg))
 			e := &wsflate.Extension{Parameters: cfg}
 			var hist []string
+			acceptedAlready := false
 			for i, n := 0, 1+c.Rng.Intn(4); i < n; i++ {
 				var o httphead.Option
 				switch c.Rng.Intn(4) {
@@ -512,6 +513,23 @@ func subReset() mon.Sub {
 				}
 				ans, err := e.Negotiate(o)
 				hist = append(hist, fmt.Sprintf("%s -> %q %v", optionText(o), optionText(ans), err))
+				// WITHOUT a reset in between: until an offer has been accepted every offer is judged on its own, as a
+				// new negotiator would judge it (a refused or malformed one leaves nothing behind); afterwards every
+				// permessage-deflate offer is declined
+				if acceptedAlready {
+					if optionText(ans) != "" || err != nil {
+						c.Fail("no-reset/second-accept", fmt.Sprintf("an offer after the accepted one was answered %q, %v (at most one offer is accepted)", optionText(ans), err), map[string]interface{}{"config": fmt.Sprintf("%+v", cfg), "history": hist})
+						return
+					}
+					continue
+				}
+				fresh := &wsflate.Extension{Parameters: cfg}
+				fa, ferr := fresh.Negotiate(o)
+				if optionText(ans) != optionText(fa) || fmt.Sprint(err) != fmt.Sprint(ferr) {
+					c.Fail("no-reset/differs", fmt.Sprintf("offer %d of a negotiator that had not accepted anything yet was answered %q, %v; a new negotiator answers %q, %v", i, optionText(ans), err, optionText(fa), ferr), map[string]interface{}{"config": fmt.Sprintf("%+v", cfg), "history": hist})
+					return
+				}
+				_, acceptedAlready = fresh.Accepted()
 			}
 			e.Reset()
 			// what a new negotiator reports before it has seen anything - and after a handshake that offered
